@@ -253,6 +253,13 @@ def setup():
         selfcheck.run()
     except ImportError:
         pass
+    # proved contracts vs CPython on a grid of concrete inputs (stand-in for an encoder cross-check)
+    import subprocess
+    p = subprocess.run([sys.executable, os.path.join(HERE, 'selftest', 'contract_vs_cpython.py')], capture_output=True, text=True)
+    print(p.stdout.strip().splitlines()[-1] if p.stdout.strip() else p.stderr[-500:])
+    if p.returncode:
+        print('setup FAILED: a proved postcondition is false on a real execution')
+        return 1
     print('setup ok: z3', z3.get_version_string())
     return 0
 
